@@ -106,6 +106,9 @@ func (p *Proc) Dead() bool {
 func (p *Proc) Kill() {
 	p.W.mu.Lock()
 	p.dead = true
+	if !p.Exited {
+		p.Exited, p.Killed, p.ExitCode, p.ExitAt = true, true, -1, p.W.Now()
+	}
 	p.W.mu.Unlock()
 	p.W.closeListenersOf(p)
 }
